@@ -74,6 +74,11 @@ def shapes(node, ctx=""):
                 out.append(("intlit", w))
         return dedup(out)
     t = node.get("type")
+    if isinstance(t, list):
+        # Draft 4: a list of type names — the union of the alternatives
+        for ti in t:
+            out += shapes(dict(node, type=ti), ctx)
+        return dedup(out)
     if t == "string":
         pat = node.get("pattern", "")
         if pat.startswith("^\\[("):
